@@ -179,7 +179,10 @@ let main_seq file do_abs =
                      p_wtmax = n_of_string wt; p_ninode = n_of_string ni };
          st := init_afs (un = "1");
          (match toks with _ :: _ :: _ :: _ :: _ :: _ :: _ :: rt :: _ -> rtmax := int_of_string rt | _ -> ());
-         Printf.printf "INIT size=%s name_max=%s maxfilesize=%s wtmax=%s\n" s nm mfs wt
+         Printf.printf "INIT size=%s name_max=%s maxfilesize=%s wtmax=%s\n" s nm mfs wt;
+         (* the announced limits against the constants of the code (Gen/GenConsts.v) *)
+         if not (limits_plausible (n_of_string nm) (n_of_string mfs)) then
+           Printf.printf "S 0 limits REPLY=0 NABS=0 NWF=0 ALLOC=1 expected=announced-limits-within-code-constants observed_code=0 name_max=%s maxfilesize=%s\n" nm mfs
        | "U" :: b :: _ -> st := set_unstable !st (b = "1")
        | "C" :: rest ->
          (match rest with id :: nm :: _ -> callid := id; callname := nm | _ -> ());
